@@ -17,9 +17,10 @@ import (
 type calib struct {
 	cache map[[2]uint32]uint32
 	fail  map[uint32]bool
+	scan  map[uint32]uint64 // per bound: how far the structured scan has got
 }
 
-var cal = &calib{cache: map[[2]uint32]uint32{}, fail: map[uint32]bool{}}
+var cal = &calib{cache: map[[2]uint32]uint32{}, fail: map[uint32]bool{}, scan: map[uint32]uint64{}}
 
 // try feeds one word to the real bounded draw and reports (outcome, reads).
 func drawOnce(n uint32, words ...uint32) (res uint32, reads int, ok bool) {
@@ -57,15 +58,18 @@ func (c *calib) Rep(n, r uint32) (uint32, bool) {
 	saved := curTape()
 	defer tape.Install(saved)
 	K := (uint64(1) << 32) / uint64(n)
-	cands := []uint32{r, uint32(uint64(r) * K), uint32((uint64(r)<<32 + uint64(n) - 1) / uint64(n))}
+	v0 := (uint64(r)<<32 + uint64(n) - 1) / uint64(n) // multiply-shift samplers: the first word of outcome r (rejected when its low product is small; the next ones are not)
+	cands := []uint32{r, uint32(uint64(r) * K), uint32(v0), uint32(v0 + 1), uint32(v0 + 2), uint32(v0 + 3), uint32(uint64(r)*K + K/2)}
 	for _, w := range cands {
 		if res, reads, ok := drawOnce(n, w, w); ok && reads == 1 && res == r {
 			c.cache[k] = w
 			return w, true
 		}
 	}
-	// last resort: scan a structured word set
-	for i := uint64(0); i < 1<<14; i++ {
+	// last resort: scan a structured word set (once per bound: every outcome
+	// met on the way is recorded, and the scan resumes where it stopped)
+	for i := c.scan[n]; i < 1<<14; i++ {
+		c.scan[n] = i + 1
 		for _, w := range []uint32{uint32(i), uint32(i << 18)} {
 			if res, reads, ok := drawOnce(n, w, w); ok && reads == 1 && res < n {
 				c.cache[[2]uint32{n, res}] = w
